@@ -71,6 +71,9 @@ TrimL(s) == LET w == Where(s, LAMBDA i : ~IsBlank(s[i])) IN IF w = <<>> THEN <<>
 TrimR(s) == LET w == Where(s, LAMBDA i : ~IsBlank(s[i])) IN IF w = <<>> THEN <<>> ELSE Take(s, w[Len(w)])
 Trim(s)  == TrimL(TrimR(s))
 
+\* x occurs in s as a contiguous block
+IsSubstr(x, s) == x = <<>> \/ \E i \in 1..(Len(s) - Len(x) + 1) : SubSeq(s, i, i + Len(x) - 1) = x
+
 \* decimal digits of a natural number
 RECURSIVE Dec(_)
 Dec(n) == IF n < 10 THEN <<48 + n>> ELSE Dec(n \div 10) \o <<48 + (n % 10)>>
